@@ -722,8 +722,8 @@ func (p *PacketFilterFlowLabel) Type() PacketFilterComponentType {
 func (p *PacketFilterFlowLabel) MarshalBinary() ([]byte, error) {
 	b := make([]byte, 4)
 
-	if p.Label >= (1 << 19) {
-		return nil, errors.New("value of \"flow label\" should be less then 524288")
+	if p.Label >= (1 << 20) {
+		return nil, errors.New("value of \"flow label\" should be less then 1048576")
 	}
 
 	binary.BigEndian.PutUint32(b, p.Label)
